@@ -68,20 +68,18 @@ def run(scn, clauses=None):
     def body(r):
         w = r.w
         child = r.make_child()
-        orig_log = child._log
         state = {'stop': None, 'sync': False}
         late = set()          # indices of chunks received after the awaited future was already done
 
-        def logged(s, direction):
+        def delivered(s):
             # blocking calls record what read_nonblocking returned (one engine read may be
             # several os reads); the asyncio transport's deliveries are recorded here
-            if direction == 'read' and not state['sync']:
+            if not state['sync']:
                 apt = getattr(child, 'async_pw_transport', None)
                 if apt and apt[0].fut.done():
                     late.add(len(child.chunks))
                 child.chunks.append(s)
-            return orig_log(s, direction)
-        child._log = logged
+        harness.tap_reads(child, delivered)
         r.late_chunks = late
         loop = aioloop.SimLoop()
         loop.set_exception_handler(lambda lp, ctx: None)
